@@ -320,7 +320,7 @@ class SymArray:
         if isinstance(sub, _np.ndarray):
             tgt = sub.ravel()
             if isinstance(val, MaskedSel):
-                val = val.materialize()
+                val = val._mat()
             if isinstance(val, SymArray):
                 j = _np.broadcast_to(_np.arange(val.size).reshape(val.shape), sub.shape).ravel()
                 src = val.flat_values()
@@ -495,8 +495,6 @@ class SymArray:
         return SymArray.from_list([f(v) for v in self.flat_values()], self.shape, dtype or self.dtype)
 
     def _zip(self, o, f, dtype=None, wrap=True):
-        if isinstance(o, MaskedSel):
-            return NotImplemented
         if isinstance(o, (list, tuple, _np.ndarray)):
             o = asarray(o)
         if isinstance(o, SymArray):
@@ -954,14 +952,31 @@ def s_nanvar(vals, ddof=0):
 
 
 # ----------------------------------------------------------------- lazily compressed selection  a[mask]
-class MaskedSel:
-    """a[mask] with a symbolic mask: values + per-element presence flags (B); order preserved."""
+class MaskedSel(SymArray):
+    """a[mask] with a symbolic mask: values + per-element presence flags (B); order preserved.
+    Reductions / len / shape stay lazy (ite over the flags); any other ndarray operation reaches
+    _buf/_idx, which materialises the selection by forking on the flags."""
     __array_priority__ = 2000
 
     def __init__(self, vals, present, dtype):
         self.vals = vals
         self.present = present
         self.dtype = _np.dtype(dtype)
+        self._wr = True
+        self._m = None
+
+    def _mat(self):
+        if self._m is None:
+            self._m = self.materialize()
+        return self._m
+
+    @property
+    def _buf(self):
+        return self._mat()._buf
+
+    @property
+    def _idx(self):
+        return self._mat()._idx
 
     @staticmethod
     def from_mask(arr, mask):
@@ -1010,12 +1025,12 @@ class MaskedSel:
         return MaskedSel([f(v) for v in self.vals], list(self.present), dtype or self.dtype)
 
     def __pow__(self, p): return self._map(lambda a: a ** p)
-    def __mul__(self, o): return self._map(lambda a: a * o) if not isinstance(o, (SymArray, MaskedSel)) else self.materialize() * o
+    def __mul__(self, o): return self._map(lambda a: a * o) if not isinstance(o, (SymArray, MaskedSel)) else self._mat() * o
     __rmul__ = __mul__
-    def __add__(self, o): return self._map(lambda a: a + o) if not isinstance(o, (SymArray, MaskedSel)) else self.materialize() + o
+    def __add__(self, o): return self._map(lambda a: a + o) if not isinstance(o, (SymArray, MaskedSel)) else self._mat() + o
     __radd__ = __add__
-    def __sub__(self, o): return self._map(lambda a: a - o) if not isinstance(o, (SymArray, MaskedSel)) else self.materialize() - o
-    def __truediv__(self, o): return self._map(lambda a: _sdiv(a, o), _fdt(self.dtype)) if not isinstance(o, (SymArray, MaskedSel)) else self.materialize() / o
+    def __sub__(self, o): return self._map(lambda a: a - o) if not isinstance(o, (SymArray, MaskedSel)) else self._mat() - o
+    def __truediv__(self, o): return self._map(lambda a: _sdiv(a, o), _fdt(self.dtype)) if not isinstance(o, (SymArray, MaskedSel)) else self._mat() / o
     def __neg__(self): return self._map(lambda a: -a)
     def astype(self, dt, **kw):
         d = _dt(dt)
@@ -1023,10 +1038,16 @@ class MaskedSel:
         return MaskedSel([tmp._cast(v) for v in self.vals], list(self.present), d)
 
     def __getitem__(self, k):
-        if isinstance(k, SymArray) and k.dtype == _np.bool_:
-            # nested mask, aligned with the *selected* elements: only supported when aligned to all vals
-            raise ShimMissing("mask of MaskedSel")
-        return self.materialize()[k]
+        return self._mat()[k]
+
+    def __setitem__(self, k, v):
+        self._mat()[k] = v
+
+    def __iter__(self):
+        return iter(self._mat())
+
+    def copy(self, order='C'):
+        return MaskedSel(list(self.vals), list(self.present), self.dtype)
 
     # reductions: absent elements are skipped
     def sum(self, axis=None, **kw):
@@ -1092,14 +1113,14 @@ class MaskedSel:
     def all(self):
         return mkbool(band(*[bor(bnot(p), bt(v)) for v, p in self._sel()]))
 
-    def ravel(self):
+    def ravel(self, order='C'):
         return self
 
-    def flat_values(self):
-        return self.materialize().flat_values()
+    def flatten(self, order='C'):
+        return self.copy()
 
-    def __iter__(self):
-        return iter(self.materialize())
+    def flat_values(self):
+        return self._mat().flat_values()
 
     def __repr__(self):
         return "MaskedSel(%d candidates)" % len(self.vals)
@@ -1134,7 +1155,7 @@ def _infer_dtype(vals):
 
 def asarray(x, dtype=None, **kw):
     if isinstance(x, MaskedSel):
-        x = x.materialize()
+        x = x._mat()
     if isinstance(x, SymArray):
         if dtype is None or _dt(dtype) == x.dtype:
             return x
@@ -1462,7 +1483,7 @@ def _red(name, f, fdt=None):
         if isinstance(x, MaskedSel):
             if hasattr(x, name):
                 return getattr(x, name)()
-            x = x.materialize()
+            x = x._mat()
         if not isinstance(x, SymArray):
             if isinstance(x, (list, tuple)) and axis is None and not (x and isinstance(x[0], (list, tuple, SymArray, _np.ndarray))):
                 return f([_unnp(v) for v in x])
@@ -1552,7 +1573,7 @@ def unique(a, return_counts=False, return_inverse=False, return_index=False, **k
     if return_inverse or return_index:
         raise ShimMissing("unique(return_inverse/index)")
     if isinstance(a, MaskedSel):
-        a = a.materialize()
+        a = a._mat()
     a = asarray(a).ravel()
     if a.is_concrete():
         r = _np.unique(a.to_numpy(), return_counts=return_counts)
@@ -1629,7 +1650,7 @@ def median(x, axis=None):
 
 def percentile(x, q, axis=None, **kw):
     if isinstance(x, MaskedSel):
-        x = x.materialize()
+        x = x._mat()
     x = asarray(x)
     if axis is not None:
         raise ShimMissing("percentile axis")
@@ -1690,7 +1711,7 @@ def repeat(a, n, axis=None):
 
 
 def concatenate(arrs, axis=0, **kw):
-    arrs = [asarray(a.materialize() if isinstance(a, MaskedSel) else a) for a in arrs]
+    arrs = [asarray(a) for a in arrs]
     dt = _np.result_type(*[a.dtype for a in arrs])
     if axis is None:
         vals = [v for a in arrs for v in a.flat_values()]
